@@ -1,6 +1,7 @@
 package nitrocheck
 
 import (
+	"bytes"
 	"encoding/binary"
 	"fmt"
 	"os"
@@ -8,6 +9,7 @@ import (
 	"runtime"
 	"sort"
 	"strings"
+	"sync"
 	"testing"
 	"time"
 
@@ -49,13 +51,20 @@ func fileClass(rel string) string {
 
 // makeBase generates a database, stores it and reads the backup directory into memory.
 func makeBase(t *rapid.T, st *ev.Stats) (*backupBase, *World) {
-	cfg := Cfg{MM: false, KV: rapid.Bool().Draw(t, "kv"), Delta: rapid.Bool().Draw(t, "delta"), NWriters: rapid.IntRange(1, 2).Draw(t, "writers")}
+	return makeBaseCfg(t, st, rapid.Bool().Draw(t, "delta"))
+}
+
+func makeBaseCfg(t *rapid.T, st *ev.Stats, delta bool) (*backupBase, *World) {
+	cfg := Cfg{MM: false, KV: rapid.Bool().Draw(t, "kv"), Delta: delta, NWriters: rapid.IntRange(1, 2).Draw(t, "writers")}
 	w := NewWorld(t, cfg, st)
 	sizes := []int{0, 1, 3, 8, 20, 20}
 	if os.Getenv("VERIF_TIER") == "thorough" {
 		sizes = []int{0, 1, 3, 20, 20, 60, 150}
 	}
 	size := sizes[rapid.IntRange(0, len(sizes)-1).Draw(t, "size")]
+	if delta && size < 8 {
+		size = 8 // so that the delta files get content
+	}
 	// key styles: sequential ASCII (the linear checksum collides by arithmetic coincidence), pseudo-random hex,
 	// zero-led binary (items that look like length prefixes / terminators)
 	style := rapid.IntRange(0, 2).Draw(t, "keystyle")
@@ -215,6 +224,57 @@ func loadBlocked() bool {
 	return blocked && !working
 }
 
+// xorChecksumCollision reports whether the damaged bytes of a shard file still parse (up to a
+// terminator) to a stream whose XOR-of-CRC32 checksum equals the checksum recorded for that file:
+// the loader's checksum cannot see such damage (the checksum is linear and order-independent).
+func (b *backupBase) xorChecksumCollision(f fault) bool {
+	cl := fileClass(f.rel)
+	if cl != "data-shard" && cl != "delta-shard" {
+		return false
+	}
+	d := append([]byte(nil), b.files[f.rel]...)
+	switch f.kind {
+	case "truncate":
+		d = d[:f.off]
+	case "flip":
+		if f.xor == 0 {
+			d[f.off] = 0
+		} else {
+			d[f.off] ^= f.xor
+		}
+	default:
+		return false
+	}
+	var items [][]byte
+	terminated := false
+	for off := 0; off+4 <= len(d); {
+		l := int(binary.BigEndian.Uint32(d[off:]))
+		if l == 0 {
+			terminated = true
+			break
+		}
+		if off+4+l > len(d) {
+			return false
+		}
+		items = append(items, d[off+4:off+4+l])
+		off += 4 + l
+	}
+	if !terminated {
+		return false
+	}
+	var origItems [][]byte
+	o := b.files[f.rel]
+	for off := 0; off+4 <= len(o); {
+		l := int(binary.BigEndian.Uint32(o[off:]))
+		if l == 0 {
+			break
+		}
+		origItems = append(origItems, o[off+4:off+4+l])
+		off += 4 + l
+	}
+	return refChecksum(items, 4) == refChecksum(origItems, 4)
+}
+
 type fault struct {
 	rel  string
 	kind string // remove | truncate | flip
@@ -291,7 +351,16 @@ func TestC11(t *testing.T) {
 	known := Known()
 	rapid.Check(t, func(t *rapid.T) {
 		sched.SeedRand(t)
-		b, w := makeBase(t, st)
+		// every case enumerates one backup without and one with delta files
+		for _, delta := range []bool{false, true} {
+			c11Enumerate(t, st, tier, known, delta)
+		}
+	})
+}
+
+func c11Enumerate(t *rapid.T, st *ev.Stats, tier string, known map[string]bool, delta bool) {
+	{
+		b, w := makeBaseCfg(t, st, delta)
 		defer os.RemoveAll(b.dir)
 		defer w.Teardown()
 		phase := rapid.IntRange(0, 7).Draw(t, "phase")
@@ -339,6 +408,15 @@ func TestC11(t *testing.T) {
 				return
 			}
 			sig := fmt.Sprintf("%s:%s:%s", cl, f.kind, o.class)
+			if strings.HasPrefix(o.class, "SILENT") && b.xorChecksumCollision(f) {
+				sig = "shard:xor-checksum-collision"
+			}
+			if os.Getenv("C11DBG") != "" {
+				fmt.Printf("C11DBG %s conc=%d -> %s got=%q want=%q\n", f.String(), conc, o.class, o.got, b.content)
+				for _, n := range b.names {
+					fmt.Printf("C11DBG   %s = %x\n", n, b.files[n])
+				}
+			}
 			if o.class == "HANG" {
 				skipHang[sigBase+fmt.Sprint(conc)] = 1
 			}
@@ -370,10 +448,24 @@ func TestC11(t *testing.T) {
 				try(fault{rel: rel, kind: "truncate", off: l}, concs[(l+concRot)%4], "")
 			}
 			for off := 0; off < len(data); off++ {
-				if tier != "thorough" && len(data) > 64 && off%8 != phase {
+				isShard := fileClass(rel) == "data-shard" || fileClass(rel) == "delta-shard"
+				if tier != "thorough" && len(data) > 64 && off%8 != phase && (isShard || off%2 != phase%2) {
 					continue
 				}
-				for mi, m := range []byte{0x01, 0x80, 0xff, 0x00} {
+				masks := []byte{0x01, 0x80, 0xff, 0x00}
+				if cl := fileClass(rel); cl != "data-shard" && cl != "delta-shard" {
+					// manifests are small text files: more masks (thorough: every value a byte can change to)
+					masks = []byte{0x01, 0x02, 0x03, 0x04, 0x07, 0x08, 0x10, 0x20, 0x40, 0x80, 0xff, 0x00}
+					if tier == "thorough" {
+						masks = masks[:0]
+						for m := 1; m < 256; m++ {
+							masks = append(masks, byte(m))
+						}
+					}
+				} else if tier == "thorough" {
+					masks = []byte{0x01, 0x02, 0x04, 0x08, 0x10, 0x20, 0x40, 0x80, 0xff, 0x00}
+				}
+				for mi, m := range masks {
 					try(fault{rel: rel, kind: "flip", off: off, xor: m}, concs[(off+mi+concRot)%4], "")
 				}
 			}
@@ -439,5 +531,206 @@ func TestC11(t *testing.T) {
 			st.Fail(sigs[0], fmt.Sprintf("damaged backup not handled (error-or-exact) for %d fault signatures on %s:%s", len(sigs), b.desc, msg))
 			t.Fatalf("FAIL[%s] damaged backup not handled (error-or-exact) for %d fault signatures on %s:%s", sigs[0], len(sigs), b.desc, msg)
 		}
+	}
+}
+
+var (
+	fuzzBases    []*backupBase
+	fuzzBaseOnce sync.Once
+)
+
+// fuzzBase builds (once per process) fixed backups for the byte-level fuzz target:
+// bytes comparator without delta, and KV comparator with real delta content.
+func fuzzBaseFor(t *testing.T, which int) *backupBase {
+	fuzzBaseOnce.Do(func() {
+		for _, cfg := range []Cfg{{NWriters: 1}, {KV: true, Delta: true, NWriters: 2}} {
+			ft := &plainTB{t}
+			w := NewWorld(ft, cfg, nil)
+			w.quiet = true
+			for i := 0; i < 24; i++ {
+				k := []byte(fmt.Sprintf("%c%02d", 'a'+i%5, i))
+				if cfg.KV {
+					k = nitro.KVToBytes(k, []byte{byte(i)})
+				}
+				w.Put(i%cfg.NWriters, k)
+			}
+			w.NewSnapshot()
+			dir := ScratchDir()
+			var script []SOp
+			mutateAt := 0
+			if cfg.Delta {
+				mutateAt = 1
+				script = []SOp{{Kind: 5, W: 0, Sel: 77}}
+			}
+			content := append([]string(nil), w.snaps[0].content...)
+			if err := w.Store(0, dir, 2, mutateAt, script); err != nil {
+				t.Fatalf("setup: %v", err)
+			}
+			b := &backupBase{cfg: cfg, dir: dir, files: map[string][]byte{}, content: content}
+			filepath.Walk(dir, func(p string, info os.FileInfo, err error) error {
+				if err == nil && !info.IsDir() {
+					rel, _ := filepath.Rel(dir, p)
+					data, _ := os.ReadFile(p)
+					b.files[rel] = data
+					b.names = append(b.names, rel)
+				}
+				return nil
+			})
+			sort.Strings(b.names)
+			b.desc = fmt.Sprintf("fuzzbase{kv=%v delta=%v items=%d}", cfg.KV, cfg.Delta, len(content))
+			fuzzBases = append(fuzzBases, b)
+			w.Teardown()
+		}
 	})
+	return fuzzBases[which%len(fuzzBases)]
+}
+
+type plainTB struct{ t *testing.T }
+
+func (p *plainTB) Fatalf(format string, args ...any) { p.t.Fatalf(format, args...) }
+func (p *plainTB) Logf(format string, args ...any)   {}
+func (p *plainTB) Skipf(format string, args ...any)  { p.t.Skipf(format, args...) }
+
+// FuzzC11 lets the coverage-guided fuzzer choose multi-fault damage: the input is decoded
+// into up to 6 faults (file, kind, offset, value) applied together to a fixed backup.
+func FuzzC11(f *testing.F) {
+	st := ev.Get("C11", "FuzzC11")
+	f.Add([]byte{0, 3, 2, 0, 8, 1})
+	f.Add([]byte{1, 5, 1, 0, 0, 0, 6, 2, 0, 3, 0x80})
+	f.Add([]byte{0, 2, 0, 0, 0, 0, 2, 0, 0, 0, 0, 4, 1, 0, 9, 0})
+	f.Fuzz(func(t *testing.T, data []byte) { fuzzC11Body(t, st, data) })
+}
+
+// TestC11Multi drives the same multi-fault body with rapid-drawn bytes (no coverage guidance).
+func TestC11Multi(t *testing.T) {
+	st := ev.Get("C11", "TestC11Multi")
+	rapid.Check(t, func(rt *rapid.T) {
+		data := rapid.SliceOfN(rapid.Byte(), 6, 31).Draw(rt, "faultbytes")
+		fuzzC11Body(t, st, data)
+	})
+}
+
+func fuzzC11Body(t *testing.T, st *ev.Stats, data []byte) {
+	{
+		if len(data) < 6 {
+			return
+		}
+		b := fuzzBaseFor(t, int(data[0]))
+		conc := []int{1, 2, 16, 17}[int(data[0]>>4)%4]
+		var fs []fault
+		for p := 1; p+5 <= len(data) && len(fs) < 6; p += 5 {
+			rel := b.names[int(data[p])%len(b.names)]
+			orig := b.files[rel]
+			kind := []string{"flip", "flip", "truncate", "remove"}[int(data[p+1])%4]
+			off := 0
+			if len(orig) > 0 {
+				off = (int(data[p+2]) | int(data[p+3])<<8) % len(orig)
+			}
+			fl := fault{rel: rel, kind: kind, off: off, xor: data[p+4]}
+			if kind == "flip" && len(orig) == 0 {
+				continue
+			}
+			if b.expensive(fl) {
+				continue // gigabyte allocations: enumerated (sampled) by TestC11
+			}
+			dup := false
+			for _, o := range fs {
+				if o.rel == rel {
+					dup = true
+				}
+			}
+			if !dup {
+				fs = append(fs, fl)
+			}
+		}
+		// the property quantifies over single faults anywhere and over combinations damaging several
+		// *shard* files at once; a combination that also removes an optional manifest (no checksums.json /
+		// no nitro.json = a legacy backup by design) is outside that domain
+		if len(fs) >= 2 {
+			keep := fs[:0]
+			for _, fl := range fs {
+				if cl := fileClass(fl.rel); cl == "data-shard" || cl == "delta-shard" {
+					keep = append(keep, fl)
+				}
+			}
+			fs = keep
+		}
+		if len(fs) == 0 {
+			return
+		}
+		for _, fl := range fs {
+			b.apply(fl)
+		}
+		o := b.loadOnce(conc)
+		for _, fl := range fs {
+			b.undo(fl)
+		}
+		st.Case(fmt.Sprintf("%s %v conc=%d", b.desc, fs, conc), len(fs) >= 2, "outcome-"+o.class)
+		if strings.HasPrefix(o.class, "SILENT") {
+			for _, fl := range fs {
+				if b.xorChecksumCollision(fl) && Known()["shard:xor-checksum-collision"] {
+					st.KnownFinding("shard:xor-checksum-collision")
+					return
+				}
+			}
+		}
+		if o.class != "error" && o.class != "exact" && o.class != "INCONCLUSIVE-SLOW" {
+			st.Fail("multi-fault:"+o.class, fmt.Sprintf("%s faults %v conc=%d: %s %s", b.desc, fs, conc, o.class, o.pnc))
+			t.Fatalf("FAIL[multi-fault:%s] %s faults %v conc=%d: LoadFromDisk %s %s (%d items, expected %d)", o.class, b.desc, fs, conc, o.class, o.pnc, len(o.got), len(b.content))
+		}
+	}
+}
+
+// TestC11KnownFinding replays the minimal input of the listed finding
+// shard:xor-checksum-collision on a hand-built backup directory, so that every run
+// reports it (KNOWN-FINDING) while it exists, and notices if it changes shape.
+func TestC11KnownFinding(t *testing.T) {
+	st := ev.Get("C11", "TestC11KnownFinding")
+	known := Known()
+	frame := func(items ...string) ([]byte, uint32) {
+		var buf bytes.Buffer
+		var raw [][]byte
+		for _, it := range items {
+			var hdr [4]byte
+			binary.BigEndian.PutUint32(hdr[:], uint32(len(it)))
+			buf.Write(hdr[:])
+			buf.WriteString(it)
+			raw = append(raw, []byte(it))
+		}
+		buf.Write([]byte{0, 0, 0, 0})
+		return buf.Bytes(), refChecksum(raw, 4)
+	}
+	dir := ScratchDir()
+	defer os.RemoveAll(dir)
+	os.MkdirAll(filepath.Join(dir, "data"), 0755)
+	os.MkdirAll(filepath.Join(dir, "delta"), 0755)
+	d0, c0 := frame("k000", "k001", "k007")
+	x0, cx := frame("k006", "k005", "k004", "k003", "k002")
+	os.WriteFile(filepath.Join(dir, "nitro.json"), []byte(`{"version":1}`), 0644)
+	os.WriteFile(filepath.Join(dir, "data", "files.json"), []byte(`["shard-0"]`), 0644)
+	os.WriteFile(filepath.Join(dir, "data", "checksums.json"), []byte(fmt.Sprintf("[%d]", c0)), 0644)
+	os.WriteFile(filepath.Join(dir, "data", "shard-0"), d0, 0644)
+	os.WriteFile(filepath.Join(dir, "delta", "files.json"), []byte(`["shard-0"]`), 0644)
+	os.WriteFile(filepath.Join(dir, "delta", "checksums.json"), []byte(fmt.Sprintf("[%d]", cx)), 0644)
+	os.WriteFile(filepath.Join(dir, "delta", "shard-0"), x0, 0644)
+	want := []string{"k000", "k001", "k002", "k003", "k004", "k005", "k006", "k007"}
+	b := &backupBase{cfg: Cfg{Delta: true, NWriters: 1}, dir: dir, content: want, files: map[string][]byte{"delta/shard-0": x0}}
+	if o := b.loadOnce(1); o.class != "exact" {
+		t.Fatalf("hand-built backup does not load exactly: %+v", o)
+	}
+	f := fault{rel: "delta/shard-0", kind: "flip", off: 11, xor: 0}
+	b.apply(f)
+	o := b.loadOnce(1)
+	b.undo(f)
+	st.Case("hand-built delta backup k000..k007 "+f.String(), true, "outcome-"+o.class)
+	st.Case("hand-built delta backup k000..k007 undamaged", true, "outcome-exact")
+	switch {
+	case o.class == "error":
+		t.Logf("the listed finding shard:xor-checksum-collision no longer reproduces (load returned %v)", o.err)
+	case strings.HasPrefix(o.class, "SILENT") && b.xorChecksumCollision(f) && known["shard:xor-checksum-collision"]:
+		st.KnownFinding("shard:xor-checksum-collision")
+	default:
+		st.Fail("known-finding-replay:"+o.class, fmt.Sprintf("replay of the checksum-collision input gave %s (%d items)", o.class, len(o.got)))
+		t.Fatalf("FAIL[known-finding-replay:%s] replay of the checksum-collision input gave %s (%d items) %s", o.class, o.class, len(o.got), o.pnc)
+	}
 }
